@@ -302,8 +302,12 @@ func (s *SVCBMandatory) unpack(b []byte) error {
 	}
 	codes := make([]SVCBKey, 0, len(b)/2)
 	for i := 0; i < len(b); i += 2 {
-		// We assume strictly increasing order.
-		codes = append(codes, SVCBKey(binary.BigEndian.Uint16(b[i:])))
+		code := SVCBKey(binary.BigEndian.Uint16(b[i:]))
+		// RFC 9460, section 8: in wire format the keys are in strictly increasing order.
+		if n := len(codes); n > 0 && code <= codes[n-1] {
+			return errors.New("bad svcbmandatory: keys not in strictly increasing order")
+		}
+		codes = append(codes, code)
 	}
 	s.Code = codes
 	return nil
